@@ -3,8 +3,8 @@
 //     {"id": <n>, "js": "<generated module text>", "actor": true|false}
 // and answers with exactly one JSON line on stdout.
 //
-// actor = true : the text is an ES module exporting `idlFactory` and `init`. It is compiled in
-//   strict mode (module code is always strict) after rewriting `export const X =` at line
+// actor = true : the text is an ES module exporting `idlFactory` and `init`. It is compiled (with
+//   `new Function`) in strict mode (module code is always strict) after rewriting `export const X =` at line
 //   starts to `const X =`, then `idlFactory({IDL})` and `init({IDL})` are called and the type
 //   graph that was built is returned:
 //     {"id","ok":true,"nodes":[...],"service":<node id>,"init":[<node id>...],"exports":2}
